@@ -18,13 +18,13 @@ package method
 //@     && (IsCtx(sig, opts, lo, j) ==> use == ArgUseContext)
 //@     && (Plain(sig, opts, lo, j) ==> use == ArgUseSource || use == ArgUseMultiSource)
 
-//@ func isError
+//@ func isError(obj)
 //@   props C14 C13
 //@   pure
 //@   requires@C13 obj != nil
 //@   ensures result == (dynIs[*types.Named](obj.Type()) && unboxed[*types.Named](obj.Type()).Obj().Name() == "error" && unboxed[*types.Named](obj.Type()).Obj().Pkg() == nil)
 
-//@ func Parse
+//@ func Parse(obj, opts, localOpts)
 //@   props C14 C10 C06 C13
 //@   requires@C13 obj != nil && opts != nil
 //@   assigns nothing
@@ -84,11 +84,11 @@ package method
 //@   loop 1 decreases sig.Params().Len() - i
 
 // ---- C09 ----
-//@ func Index.GetAll
+//@ func Index.GetAll(l; )
 //@   props C09
 //@   maprange 1 unordered-result items
 
-//@ func AvailableContextDebug
+//@ func AvailableContextDebug(required, available)
 //@   props C09
 //@   assigns nothing
 //@   maprange 1 unordered-result lines
@@ -99,20 +99,20 @@ package method
 
 // satisfiesContext(required, m) is "the keys of required are a subset of the keys of m"; callers reason with
 // the function symbol itself (opaque), its meaning is proved here once
-//@ func satisfiesContext
+//@ func satisfiesContext(required, m)
 //@   props C06
 //@   pure
 //@   opaque
 //@   ensures result == CtxSubset(required, m)
 //@   loop 1 invariant forall k string :: has(seen, k) ==> has(m, k)
 
-//@ func checkOverlap
+//@ func checkOverlap(left, right)
 //@   props C06 C13
 //@   pure
 //@   requires@C13 left != nil && right != nil
 //@   ensures (result != nil) == satisfiesContext(left.Context, right.Context)
 
-//@ func Index.Has
+//@ func Index.Has(l; sig)
 //@   props C06 C13
 //@   pure
 //@   requires@C13 l != nil
@@ -125,14 +125,14 @@ package method
 //@     (id.update ==> 0 <= id.idx && id.idx < len(l.Update))
 //@     && (!id.update ==> has(l.Exact, id.sig) && 0 <= id.idx && id.idx < len(l.Exact[id.sig]))
 
-//@ func Index.ByID
+//@ func Index.ByID(l; id)
 //@   props C06 C13
 //@   pure
 //@   requires@C13 l != nil
 //@   requires@C13 ValidID(l, id)
 //@   ensures result == ite(id.update, l.Update[id.idx], l.Exact[id.sig][id.idx].Item)
 
-//@ func satisfiedError
+//@ func satisfiedError(sig, available, hits)
 //@   props C06 C13
 //@   pure
 //@   requires@C13 forall j int :: 0 <= j && j < len(hits) ==> hits[j].Def != nil
@@ -140,7 +140,7 @@ package method
 
 // Get: nil/nil iff the signature is absent; otherwise the FIRST entry whose required context is available,
 // or an error when no entry is satisfiable
-//@ func Index.Get
+//@ func Index.Get(l; sig, m)
 //@   props C06 C13
 //@   pure
 //@   requires@C13 IndexWF(l)
@@ -156,7 +156,7 @@ package method
 
 // Register: appends (def, t) to the entries of def.Signature unless an existing entry overlaps in either
 // direction; every other signature, every earlier entry and every earlier id stay intact
-//@ func Index.Register
+//@ func Index.Register(l; t, def)
 //@   props C06 C13
 //@   requires@C13 IndexWF(l) && def != nil && t != nil
 //@   assigns map(l.Exact)
@@ -171,7 +171,7 @@ package method
 //@   ensures err == nil ==> !result0.update && result0.sig == def.Signature && result0.idx == len(old(l.Exact[def.Signature]))
 //@   loop 1 invariant forall j int :: 0 <= j && j < idx ==> !satisfiesContext(old(l.Exact[def.Signature])[j].Def.Context, def.Context) && !satisfiesContext(def.Context, old(l.Exact[def.Signature])[j].Def.Context)
 
-//@ func Index.RegisterUpdate
+//@ func Index.RegisterUpdate(l; t, def)
 //@   props C06 C13
 //@   requires@C13 l != nil
 //@   assigns l.Update
